@@ -25,7 +25,7 @@ EXPLANATION = ('Glue: for both size orders and ties, hydrogen filtering on/off, 
 BOUNDS = {'quick': {'sizes (start,end)': '(3,2) (2,3) (2,2) (3,3) (2,1) (3,1)', 'hydrogen masks': 'all with at least one heavy atom on the larger molecule (3-atom: 7)',
                     'restraints': 'none, one pair, two pairs', 'deformations': 'None, (0,), (0,1), (0,1,2)', 'step': '3-atom mobile molecule, 1 iteration per move type'},
           'thorough': {'sizes': 'plus (4,2) (2,4) (4,3)', 'step': '4-atom mobile molecule'}}
-OUTSIDE = ['bit-identical repeatability for a fixed seed (a statement about the concrete PRNG and binary64)', 'molecules of more than 4 atoms',
+OUTSIDE = ['bit-identical repeatability for a fixed seed (a statement about the concrete PRNG and binary64; only the completeness of the random-draw stub is validated: stub-validation/*)', 'molecules of more than 4 atoms',
            'the full STEPS_FACTOR*n Monte-Carlo run (decomposed into the glue, the per-iteration invariant here, C07 and C09)']
 STUBS = ['gaddlemaps._alignment.minimize_molecules -> recorder returning fresh symbolic coordinates (contract: same shape)',
          'Chi2Calculator -> uninterpreted energy in the step obligations', 'np.random.* -> symbolic draws']
@@ -43,7 +43,46 @@ def cases(tier):
         cs.append({'name': 'realign/start%d-end%d' % (ns, ne), 'ns': ns, 'ne': ne})
     for kind in ('translation', 'rotation'):
         cs.append({'name': 'step/%s' % kind, 'move': kind, 'n': 3 if tier == 'quick' else 4})
+    cs.append({'name': 'stub-validation/randomness-sources'})
     return cs
+
+
+_RNG_NAMES = {'default_rng', 'RandomState', 'SeedSequence', 'PCG64', 'MT19937', 'Philox', 'SFC64', 'urandom', 'getrandbits', 'SystemRandom'}
+
+
+def _randomness_sources(case):
+    """Every np.random.* call is replaced by a symbolic draw, which stands for 'every seed'.  That covers the randomness of the
+    package only if all of it comes from numpy's global stream: the sources of the package are scanned (AST) for private
+    generators and other entropy sources; a hit is a candidate that the replay decides (two runs from one seed)."""
+    import ast, os
+    import gaddlemaps
+    root = os.path.dirname(gaddlemaps.__file__)
+    hits, nfiles = [], 0
+    for dp, dn, fn in os.walk(root):
+        for f in fn:
+            if not f.endswith('.py'):
+                continue
+            nfiles += 1
+            path = os.path.join(dp, f)
+            try:
+                tree = ast.parse(open(path, encoding='utf-8').read())
+            except SyntaxError:
+                continue
+            for node in ast.walk(tree):
+                if isinstance(node, ast.Import) and any(a.name.split('.')[0] in ('random', 'secrets') for a in node.names):
+                    hits.append('%s:%d import %s' % (os.path.relpath(path, root), node.lineno, node.names[0].name))
+                elif isinstance(node, ast.ImportFrom) and (node.module or '').split('.')[0] in ('random', 'secrets'):
+                    hits.append('%s:%d from %s import ...' % (os.path.relpath(path, root), node.lineno, node.module))
+                elif isinstance(node, ast.Attribute) and node.attr in _RNG_NAMES:
+                    hits.append('%s:%d .%s' % (os.path.relpath(path, root), node.lineno, node.attr))
+                elif isinstance(node, ast.Name) and node.id in _RNG_NAMES:
+                    hits.append('%s:%d %s' % (os.path.relpath(path, root), node.lineno, node.id))
+    rec = {'name': 'all randomness of the package comes from the global numpy stream (no private generator / other entropy source in %d source files)' % nfiles,
+           'status': 'unsat' if not hits else 'sat', 'secs': 0}
+    if hits:
+        rec['witness'] = {'kind': 'repeat', 'sites': hits[:5]}
+    return {'records': [rec, {'name': 'reachability-twin', 'status': 'twin', 'secs': 0}], 'paths': nfiles, 'queries': 0, 'solver_s': 0,
+            'samples': [{'files': nfiles, 'hits': hits[:5]}], 'nontrivial': ['randomness-sources']}
 
 
 def _glue(case):
@@ -377,6 +416,8 @@ def _realign(case):
 
 
 def run_case(case):
+    if case['name'].startswith('stub-validation'):
+        return _randomness_sources(case)
     if case['name'].startswith('realign'):
         return _realign(case)
     return _glue(case) if case['name'].startswith('glue') else _step(case)
@@ -387,6 +428,30 @@ def replay(w):
     from symx.core import fval
     from symx.mol import make_molecule
     import gaddlemaps._alignment as al
+    if w['kind'] == 'repeat':
+        # two runs of the real alignment from the same seed must coincide (the symbolic draws stand for the seeded stream only)
+        import io, contextlib, random as _random
+        big = [(0.00, 0.00, 0.00), (0.15, 0.02, 0.00), (0.29, -0.03, 0.04), (0.44, 0.01, 0.02), (0.58, 0.06, -0.03), (0.71, 0.00, 0.01), (0.30, 0.12, 0.10)]
+        star = [(1.00, 1.00, 1.00), (1.28, 1.05, 0.97), (0.90, 1.27, 1.04), (0.93, 0.85, 1.25)]
+        mkb = lambda: make_molecule('BIG', [('C%d' % a, 'BIG', 1) for a in range(7)], [(0, 1), (1, 2), (2, 3), (3, 4), (4, 5), (2, 6)], np.array(big))
+        mks = lambda: make_molecule('STA', [('B%d' % a, 'STA', 1) for a in range(4)], [(0, 1), (0, 2), (0, 3)], np.array(star))
+
+        def once(seed, types, swap):
+            a, b = (mks(), mkb()) if swap else (mkb(), mks())
+            ali = al.Alignment(start=a, end=b)
+            ali.STEPS_FACTOR = 40
+            np.random.seed(seed); _random.seed(seed)
+            with contextlib.redirect_stdout(io.StringIO()):
+                ali.align_molecules(restrictions=[], deformation_types=types, ignore_hydrogens=False)
+            return np.array(ali.start.atoms_positions, dtype=float), np.array(ali.end.atoms_positions, dtype=float)
+        worst = 0.0
+        for swap in (False, True):
+            for types in ((0, 1, 2), (2,), (0, 1)):
+                for seed in (0, 1):
+                    r1, r2 = once(seed, types, swap), once(seed, types, swap)
+                    worst = max(worst, max(np.abs(x - y).max() for x, y in zip(r1, r2)))
+        return {'reproduced': worst > 0, 'what': 'alignment repeated from the same seed differs by %.3g nm (randomness outside the seeded numpy stream: %s)' % (worst, '; '.join(w.get('sites', []))[:200]),
+                'detail': {}}
     if w['kind'] == 'step':
         from gaddlemaps import rotation_matrix
         rs = np.random.RandomState(5)
